@@ -457,13 +457,22 @@ impl FileManager {
             table
         );
 
+        // the cache must not keep the mappings of the files that go away: a table created later
+        // under the same name would be served from the unlinked file (as drop_index does)
         for index_name in self.list_indexes(schema, table)? {
+            let key = Self::make_index_key(schema, table, &index_name);
+            if let Some(lock) = self.open_files.remove(&key) {
+                drop(lock);
+            }
             let index_path = self.index_file_path(schema, table, &index_name);
             fs::remove_file(&index_path).wrap_err_with(|| {
                 format!("failed to remove index file '{}'", index_path.display())
             })?;
         }
 
+        if let Some(lock) = self.open_files.remove(&Self::make_table_key(schema, table)) {
+            drop(lock);
+        }
         let table_path = self.table_file_path(schema, table);
         fs::remove_file(&table_path)
             .wrap_err_with(|| format!("failed to remove table file '{}'", table_path.display()))?;
